@@ -14,7 +14,7 @@ if [ ! -f $S/.built ] || [ "$(cat $S/.built)" != "$head" ]; then
   (./autogen.sh >/dev/null 2>&1 || true); ./configure >/dev/null 2>&1 && make -j$J >/dev/null 2>&1 || { echo "baseline build failed"; exit 2; }
   for try in 1 2 3; do   # a loaded machine makes test-gather-topology.sh flaky: a run with failures is repeated
     make check -k -j$J > $S/check.base.log 2>&1
-    [ "$(grep -c '^FAIL\|^ERROR' $S/check.base.log)" = 0 ] && break
+    [ "$(grep -c '^FAIL\|^ERROR' $S/check.base.log)" = 0 ] && [ "$(grep -c '^PASS' $S/check.base.log)" -ge ${EXPECT_PASS:-174} ] && break   # (a run killed from outside has no FAIL line either)
   done
   echo "baseline PASS=$(grep -c '^PASS' $S/check.base.log) FAIL=$(grep -c '^FAIL' $S/check.base.log)" > $S/.baseline
   echo $head > $S/.built
@@ -39,10 +39,10 @@ patch -p1 -s < $d/patch.diff
 make -j$J > $S/_build.log 2>&1; r_build=$?
 pass=0; fail=0; r_mut=-1
 if [ $r_build = 0 ]; then
-  for try in 1 2; do
+  for try in 1 2 3; do
     make check -k -j$J > $S/check.mut.log 2>&1
     pass=$(grep -c '^PASS' $S/check.mut.log); fail=$(grep -c '^FAIL\|^ERROR' $S/check.mut.log)
-    [ "$fail" = 0 ] && break
+    [ "$fail" = 0 ] && [ "$pass" -ge "$base_pass" ] && break
   done
   [ "$fail" != 0 ] && grep '^FAIL\|^ERROR' $S/check.mut.log | head -5
   rundemo; r_mut=$?
